@@ -67,6 +67,22 @@ impl Property for C18 {
     fn components(&self) -> Value {
         host_components()
     }
+    fn expected_probes(&self) -> Vec<&'static str> {
+        vec![
+            "EPIPE before the first byte",
+            "EPIPE in the middle of the request",
+            "compiler blocked on a full stdin pipe",
+            "compiler blocked while collecting",
+            "short write on a generator's stdin",
+            "EINTR on a generator's stdin",
+            "generator killed by SIGPIPE",
+            "libc fault (errno) delivered",
+            "short write / EINTR on a generated file",
+            "generated file could not be written (world or fault)",
+            "identical file skipped",
+            "failed generator had decodable files",
+        ]
+    }
     fn extra_evidence(&self, ws: &crate::ws::Ws, exec: &Executor, opts: &crate::Opts) -> Result<Option<(String, Value)>, String> {
         // validate the model of the process world against real executions (not part of the verdict)
         let n = if opts.tier == "quick" { 64 } else { 600 };
